@@ -215,9 +215,77 @@ theorem simMod_rm {cfg : Cfg} {am : AMod} {m : Module} (t : Int) (h : SimMod cfg
       intro hmem
       exact h.noAll (List.mem_filter.mp hmem).1
 
+theorem mem_idxAdd (idx : List (Int × List Nat)) (t t' : Int) (u v : Nat) :
+    v ∈ idxGet (idxAdd idx t u) t' ↔ v ∈ idxGet idx t' ∨ (t' = t ∧ v = u) := by
+  rw [idxAdd_get]
+  by_cases h : t' = t
+  · simp [h, mem_setAdd]
+  · simp [h]
+
+theorem mem_idxDiscard (idx : List (Int × List Nat)) (t t' : Int) (u v : Nat) :
+    v ∈ idxGet (idxDiscard idx t u) t' ↔ v ∈ idxGet idx t' ∧ ¬(t' = t ∧ v = u) := by
+  rw [idxDiscard_get]
+  by_cases h : t' = t
+  · simp [h, List.mem_filter]
+  · simp [h]
+
+/-- the subscription index after `add_subscription` -/
+theorem addSubCore_idx (cfg : Cfg) (s : State) (u : Nat) (t : Int) (m : Module) (hm : s.find u = some m) (t' : Int) (v : Nat) :
+    v ∈ idxGet (addSubCore cfg s u t).idx t' ↔
+      if t == cfg.allTypes then (v ∈ idxGet s.idx t' ∧ ¬(t' ∈ m.subs ∧ v = u)) ∨ (t' = t ∧ v = u)
+      else if m.subs.contains cfg.allTypes then v ∈ idxGet s.idx t'
+      else v ∈ idxGet s.idx t' ∨ (t' = t ∧ v = u) := by
+  have hl : lookupMod s u = m := by unfold lookupMod; rw [hm]; rfl
+  unfold addSubCore
+  simp only [hl]
+  split
+  · show v ∈ idxGet (idxAdd _ t u) t' ↔ _
+    rw [mem_idxAdd, mem_discards]
+  · split
+    · exact Iff.rfl
+    · show v ∈ idxGet (idxAdd s.idx t u) t' ↔ _
+      rw [mem_idxAdd]
+
+/-- the subscription index after `remove_subscription` -/
+theorem removeSubCore_idx (cfg : Cfg) (s : State) (u : Nat) (t : Int) (m : Module) (hm : s.find u = some m) (t' : Int)
+    (v : Nat) (h : v ∈ idxGet (removeSubCore cfg s u t).idx t') : v ∈ idxGet s.idx t' := by
+  have hl : lookupMod s u = m := by unfold lookupMod; rw [hm]; rfl
+  unfold removeSubCore at h
+  simp only [hl] at h
+  split at h
+  · have h' : v ∈ idxGet (m.subs.foldl (fun i t' => idxDiscard i t' u) (idxDiscard s.idx t u)) t' := h
+    rw [mem_discards, mem_idxDiscard] at h'
+    exact h'.1.1
+  · split at h
+    · exact h
+    · have h' : v ∈ idxGet (idxDiscard s.idx t u) t' := h
+      rw [mem_idxDiscard] at h'
+      exact h'.1
+
+theorem removeSubCore_idx_keep (cfg : Cfg) (s : State) (u : Nat) (t : Int) (m : Module) (hm : s.find u = some m) (t' : Int)
+    (v : Nat) (h : v ∈ idxGet s.idx t') (hk : v ≠ u ∨ (t' ≠ t ∧ t ≠ cfg.allTypes)) :
+    v ∈ idxGet (removeSubCore cfg s u t).idx t' := by
+  have hl : lookupMod s u = m := by unfold lookupMod; rw [hm]; rfl
+  unfold removeSubCore
+  simp only [hl]
+  split
+  · rename_i ht
+    show v ∈ idxGet (m.subs.foldl (fun i t' => idxDiscard i t' u) (idxDiscard s.idx t u)) t'
+    rw [mem_discards, mem_idxDiscard]
+    rcases hk with hk | hk
+    · exact ⟨⟨h, fun hh => hk hh.2⟩, fun hh => hk hh.2⟩
+    · exact absurd (by simpa using ht) hk.2
+  · split
+    · exact h
+    · show v ∈ idxGet (idxDiscard s.idx t u) t'
+      rw [mem_idxDiscard]
+      rcases hk with hk | hk
+      · exact ⟨h, fun hh => hk hh.2⟩
+      · exact ⟨h, fun hh => hk.1 hh.1⟩
+
 /-- the table update of a subscription request keeps the simulation -/
-theorem subCore_sim {cfg : Cfg} {a : A} {s : State} (hs : Sim cfg a s) (u : Nat) (t : Int) (add : Bool) (m : Module)
-    (hm : s.find u = some m) :
+theorem subCore_sim {cfg : Cfg} {a : A} {s : State} (hs : Sim cfg a s) (u : Nat) (hu0 : u ≠ 0) (t : Int) (add : Bool)
+    (m : Module) (hm : s.find u = some m) :
     Sim cfg (a.upd u (Spec.subUpd cfg t add)) (if add = true then addSubCore cfg s u t else removeSubCore cfg s u t) := by
   have huid : ∀ x, (Spec.subUpd cfg t add x).uid = x.uid := by
     intro x; unfold Spec.subUpd; split
@@ -235,16 +303,103 @@ theorem subCore_sim {cfg : Cfg} {a : A} {s : State} (hs : Sim cfg a s) (u : Nat)
   | true =>
     simp only [if_true]
     obtain ⟨h1, h2, h3, h4, h5, _⟩ := addSubCore_misc cfg s u t
-    exact sim_upd_find hs u _ (fun x => { x with subs := addSubsOf cfg t m.subs }) huid hal
-      (addSubCore_find cfg s u t m hm) h1 h2 h3 h4 h5
+    refine sim_upd_find hs u _ (fun x => { x with subs := addSubsOf cfg t m.subs }) huid hal
+      (addSubCore_find cfg s u t m hm) h1 h2 h3 h4 h5 ?_ ?_
       (fun am m' _ hm' h => by rw [hm] at hm'; cases hm'; exact simMod_add t h) (fun _ => rfl) (fun _ => rfl)
+    · intro v m' t' hm' ht'
+      rw [addSubCore_find cfg s u t m hm] at hm'
+      rw [addSubCore_idx cfg s u t m hm]
+      cases hm0 : s.find v with
+      | none => simp [hm0] at hm'
+      | some m0 =>
+        simp only [hm0, Option.map_some, Option.some.injEq] at hm'
+        have hv := find_uid hm0
+        by_cases hvu : v = u
+        · subst hvu
+          rw [hm] at hm0; cases hm0
+          have hc : (m.uid == v) = true := by simp [hv]
+          rw [hc] at hm'; simp only [if_true] at hm'
+          subst hm'
+          unfold addSubsOf at ht'
+          split
+          · rename_i hta
+            simp only [hta, if_true, List.mem_singleton] at ht'
+            exact Or.inr ⟨ht', rfl⟩
+          · rename_i hta
+            simp only [hta, Bool.false_eq_true, if_false] at ht'
+            split
+            · rename_i hca
+              simp only [hca, if_true] at ht'
+              exact hs.idxIn v m t' hm ht'
+            · rename_i hca
+              simp only [hca, Bool.false_eq_true, if_false] at ht'
+              split at ht'
+              · exact Or.inl (hs.idxIn v m t' hm ht')
+              · rcases List.mem_append.mp ht' with h | h
+                · exact Or.inl (hs.idxIn v m t' hm h)
+                · exact Or.inr ⟨by simpa using h, rfl⟩
+        · have hc : (m0.uid == u) = false := by rw [hv]; simpa using hvu
+          rw [hc] at hm'; simp only [Bool.false_eq_true, if_false] at hm'
+          subst hm'
+          have hold := hs.idxIn v m0 t' hm0 ht'
+          split
+          · exact Or.inl ⟨hold, fun h => hvu h.2⟩
+          · split
+            · exact hold
+            · exact Or.inl hold
+    · intro t' v hv
+      rw [addSubCore_idx cfg s u t m hm] at hv
+      split at hv
+      · rcases hv with h | h
+        · exact hs.idxPos t' v h.1
+        · rw [h.2]; exact hu0
+      · split at hv
+        · exact hs.idxPos t' v hv
+        · rcases hv with h | h
+          · exact hs.idxPos t' v h
+          · rw [h.2]; exact hu0
   | false =>
     simp only [Bool.false_eq_true, if_false]
     obtain ⟨h1, h2, h3, h4, h5, _⟩ := removeSubCore_misc cfg s u t
-    exact sim_upd_find hs u _ (fun x => { x with subs := rmSubsOf cfg t m.subs }) huid hal
-      (removeSubCore_find cfg s u t m hm) h1 h2 h3 h4 h5
+    refine sim_upd_find hs u _ (fun x => { x with subs := rmSubsOf cfg t m.subs }) huid hal
+      (removeSubCore_find cfg s u t m hm) h1 h2 h3 h4 h5 ?_ ?_
       (fun am m' _ hm' h => by rw [hm] at hm'; cases hm'; exact simMod_rm t h) (fun _ => rfl) (fun _ => rfl)
-
+    · intro v m' t' hm' ht'
+      rw [removeSubCore_find cfg s u t m hm] at hm'
+      cases hm0 : s.find v with
+      | none => simp [hm0] at hm'
+      | some m0 =>
+        simp only [hm0, Option.map_some, Option.some.injEq] at hm'
+        have hv := find_uid hm0
+        by_cases hvu : v = u
+        · subst hvu
+          rw [hm] at hm0; cases hm0
+          have hc : (m.uid == v) = true := by simp [hv]
+          rw [hc] at hm'; simp only [if_true] at hm'
+          subst hm'
+          unfold rmSubsOf at ht'
+          by_cases hta : (t == cfg.allTypes) = true
+          · simp only [hta, if_true, List.not_mem_nil] at ht'
+          · have hta' : (t == cfg.allTypes) = false := by simpa using hta
+            simp only [hta', Bool.false_eq_true, if_false] at ht'
+            by_cases hca : m.subs.contains cfg.allTypes = true
+            · simp only [hca, if_true] at ht'
+              have : removeSubCore cfg s v t = s := by
+                unfold removeSubCore
+                have hl : lookupMod s v = m := by unfold lookupMod; rw [hm]; rfl
+                simp only [hl, hta', Bool.false_eq_true, if_false, hca, if_true]
+              rw [this]; exact hs.idxIn v m t' hm ht'
+            · have hca' : m.subs.contains cfg.allTypes = false := by simpa using hca
+              simp only [hca', Bool.false_eq_true, if_false] at ht'
+              obtain ⟨hin, hne⟩ := List.mem_filter.mp ht'
+              exact removeSubCore_idx_keep cfg s v t m hm t' v (hs.idxIn v m t' hm hin)
+                (Or.inr ⟨by simpa using hne, by simpa using hta⟩)
+        · have hc : (m0.uid == u) = false := by rw [hv]; simpa using hvu
+          rw [hc] at hm'; simp only [Bool.false_eq_true, if_false] at hm'
+          subst hm'
+          exact removeSubCore_idx_keep cfg s u t m hm t' v (hs.idxIn v m0 t' hm0 ht') (Or.inl hvu)
+    · intro t' v hv
+      exact hs.idxPos t' v (removeSubCore_idx cfg s u t m hm t' v hv)
 
 /-! ## SUBSCRIBE / RESUME / UNSUBSCRIBE / PAUSE -/
 
@@ -333,7 +488,7 @@ theorem seg_sub (hs : (rd.h.mtype == cfg.mtSubscribe || rd.h.mtype == cfg.mtResu
   have t00 := rdState_top ok hfuel inv.top rd
   have j00 : J (rdState cfg s rd) := rdState_J inv.j rd
   -- the table update
-  have hs0 := subCore_sim (rdState_sim inv.sim rd) rd.uid ty add m hm0
+  have hs0 := subCore_sim (rdState_sim inv.sim rd) rd.uid hu0 ty add m hm0
   generalize hC : (if add = true then addSubCore cfg (rdState cfg s rd) rd.uid ty
     else removeSubCore cfg (rdState cfg s rd) rd.uid ty) = c at hs0
   have t0 : Top cfg c := by
